@@ -27,7 +27,7 @@ func HistCheckFor(prop string) (HistCheck, bool) {
 		hc.Rule = "histories with an adversarial next-header chooser (orphan, duplicate of any known header, fork exactly at / one beyond max depth, child of a deep side tip, retry of a refused header), MaxBranchDepth from 0"
 	case "C09":
 		g.WClean, g.WSave, g.WReload = 10, 2, 5
-		g.PruneDepths = []int{0}
+		g.PruneDepths = []int{0, 0, 8, 12, 20}
 		g.BaseLens = []int{0, 2, 8, 20, 30}
 		hc.Rule = "histories emphasising multi-branch trees consolidated repeatedly, small prune depths via hook, reloads; every accepted header looked up through every by-hash API after every op"
 	case "C10":
@@ -37,11 +37,12 @@ func HistCheckFor(prop string) (HistCheck, bool) {
 	case "C11":
 		g.WClean, g.WSave, g.WReload = 6, 3, 10
 		g.Twin = true
-		g.PruneDepths = []int{0}
+		g.PruneDepths = []int{0, 0, 0, 12, 20}
 		hc.Rule = "histories with repeated Save/Load generations mixed with Clean; loaded vs original vs model; both continue with the same submissions (twin mode)"
 	case "C12":
 		g.WClean, g.WSave, g.WReload = 8, 8, 2
 		g.EarlySave = true
+		g.PruneDepths = []int{0, 0, 8, 12}
 		hc.Opt.CrashPoints = true
 		hc.Rule = "every prefix of the Write/Remove journal of every Clean and Save in each history is loaded by a fresh repository (fault enumeration per history)"
 	case "C17":
@@ -49,7 +50,7 @@ func HistCheckFor(prop string) (HistCheck, bool) {
 		hc.Rule = "histories with MarkHeaderInvalid on best chain (depth 0,1,mid,deep), side branch, unseen, unknown, already marked; followed by submissions, Save/Load, unmarking and resubmission"
 	case "C19":
 		g.WClean, g.WReload = 6, 3
-		g.PruneDepths = []int{0}
+		g.PruneDepths = []int{0, 0, 8, 12}
 		g.BaseLens = []int{0, 0, 1, 2, 3, 8, 20, 40}
 		hc.Rule = "locators for max in {1,2,3,10,50} checked after every op of histories with several side branches, cleans, reloads and pruned chains"
 	default:
